@@ -47,6 +47,7 @@ def panel_spec(draw, max_geos=6, min_geos=1, max_dates=30, flat=False):
       'flat': ([[draw(st.integers(0, n_geos - 1)), draw(st.sampled_from([n_dates, n_test + 3, max(n_test + 3, n_dates // 2)]))]
                 for _ in range(draw(st.integers(1, 2)))] if (flat and draw(st.integers(0, 2)) == 0) else []),
       'date_str': draw(st.integers(0, 5)) == 0,
+      'row_labels': draw(st.sampled_from([None, None, None, 'kept', 'gaps', 'repeated'])),
   }
 
 
